@@ -37,7 +37,10 @@ class Violation(Exception):
         self.detail = detail
 
     def record(self):
-        return {'kind': self.kind, 'case': self.case, 'detail': self.detail}
+        case = self.case
+        if isinstance(case, dict):        # keys starting with '_' are run-time scratch of a check, not part of the case
+            case = {k: v for k, v in case.items() if not str(k).startswith('_')}
+        return {'kind': self.kind, 'case': case, 'detail': self.detail}
 
 
 def import_repo():
@@ -402,4 +405,12 @@ class Ctx:
         self.thorough = tier == 'thorough'
 
     def pick(self, quick, thorough):
-        return thorough if self.thorough else quick
+        """Budget of the current tier.  Example counts of the thorough tier are capped at THOROUGH_FACTOR times the
+        quick count (VERIF_THOROUGH_FACTOR, default 8), which keeps every thorough check near ten minutes on 16 cores;
+        exhaustive depths and size tuples are taken as given."""
+        if not self.thorough:
+            return quick
+        if isinstance(quick, int) and isinstance(thorough, int) and quick >= 20:
+            factor = int(os.environ.get('VERIF_THOROUGH_FACTOR', '8'))
+            return min(thorough, quick * factor)
+        return thorough
